@@ -220,6 +220,14 @@ func dumpStmt(s ir.Statement) string {
 		return fmt.Sprintf("(store %d %d)", k.Pointer, k.Value)
 	case ir.StmtCall:
 		return fmt.Sprintf("(call %d (%s) %s)", k.Function, hs(k.Arguments), optH(k.Result))
+	case ir.StmtAtomic:
+		cmp := "nil"
+		if ex, ok := k.Fun.(ir.AtomicExchange); ok && ex.Compare != nil {
+			cmp = fmt.Sprint(*ex.Compare)
+		}
+		return fmt.Sprintf("(atomic %d %s %s %d %s)", k.Pointer, q(tyName(k.Fun)), cmp, k.Value, optH(k.Result))
+	case ir.StmtWorkGroupUniformLoad:
+		return fmt.Sprintf("(wgul %d %d)", k.Pointer, k.Result)
 	}
 	return fmt.Sprintf("(other %s)", q(tyName(s.Kind)))
 }
